@@ -288,11 +288,16 @@ fn hoist_starts_with_stream(s: &[u8]) -> (r: bool) { s.starts_with(b"stream") }
 fn hoist_get_is_ws(buf: &[u8], pos: usize) -> (r: bool)
     ensures r == (pos < buf@.len() && is_ws(buf@[pos as int]))
 { buf.get(pos).map(|&b| is_whitespace(b)).unwrap_or(false) }
-// std: <[u8]>::contains on a byte-string literal (Kani on the real `Lexer::is_delimiter`: lexer_is_delimiter_leaf)
+// std: <[u8]>::get + Option::map + <[u8]>::contains + unwrap_or; the set is an ARGUMENT (the source's byte-string literal,
+// re-spelled as an array of byte literals), so which bytes are in it is under proof (Kani on the real `Lexer::is_delimiter`:
+// lexer_is_delimiter_leaf)
+pub open spec fn in_set(s: Seq<u8>, x: u8) -> bool decreases s.len() {
+    if s.len() == 0 { false } else { s.last() == x || in_set(s.drop_last(), x) }
+}
 #[verifier::external_body]
-fn hoist_get_is_delim(buf: &[u8], pos: usize) -> (r: bool)
-    ensures r == (pos < buf@.len() && is_delim(buf@[pos as int]))
-{ buf.get(pos).map(|b| b"()<>[]{}/%".contains(b)).unwrap_or(false) }
+fn hoist_get_in_set(buf: &[u8], pos: usize, set: &[u8]) -> (r: bool)
+    ensures r == (pos < buf@.len() && in_set(set@, buf@[pos as int]))
+{ buf.get(pos).map(|b| set.contains(b)).unwrap_or(false) }
 // bytes of a &'static str (UTF-8); opaque: only equality with it is used
 pub uninterp spec fn str_bytes(s: &str) -> Seq<u8>;
 // callee in /repo: Substr::equals (slice == other.as_ref()) with str::as_bytes
